@@ -917,6 +917,66 @@ func mkReplay(clause int, s srcInfo, t int, r *violRec) replayCase {
 
 // ---- the check --------------------------------------------------------------------------------------------
 
+// homonyms: two DIFFERENT defined types that print alike (function-local types of the same name; two packages each with a
+// type Size would do the same), one over an integer kind and one over a float kind, converted one after the other in one
+// process, in both orders. Each must convert exactly like its underlying kind does (which the sweeps judge).
+func sameAsKind[N, K safecast.IConvertable](rep *ev.Reporter, what string, n N, k K, evals *int64) {
+	var a, b [nT]uint64
+	var panicked any
+	func() {
+		defer func() { panicked = recover() }()
+		convAll(n, &a)
+	}()
+	convAll(k, &b)
+	*evals += nT
+	if panicked != nil {
+		rep.Violation("homonym-type:panic:"+what, map[string]any{"value": fmt.Sprint(k), "panic": fmt.Sprint(panicked)})
+		return
+	}
+	for t := 0; t < nT; t++ {
+		if a[t] != b[t] {
+			rep.Violation(fmt.Sprintf("homonym-type:differs-from-its-kind:%s:target=%s", what, targets[t].name), map[string]any{"value": fmt.Sprint(k), "as_defined_type": renderResult(t, a[t]), "as_its_kind": renderResult(t, b[t])})
+		}
+	}
+}
+
+func homonyms(rep *ev.Reporter) (evals int64) {
+	us := []uint64{0, 1, 255, 1 << 31, 1<<63 - 1, 1 << 63, 1<<64 - 2, 1<<64 - 1}
+	is := []int64{-1 << 63, -1<<63 + 1, -1, 0, 1, 1<<63 - 2, 1<<63 - 1}
+	fs := []float64{math.Inf(-1), -1e30, -1 << 63, -1.5, 0, 0.5, 1 << 31, 1 << 63, 1.8e19, 1 << 64, 1e30, math.Inf(1)}
+	func() { // integer kind first ...
+		type Level uint64
+		for _, v := range us {
+			sameAsKind(rep, "first-met=integer:this=integer", Level(v), v, &evals)
+		}
+	}()
+	func() { // ... then the float type of the same name
+		type Level float64
+		for _, v := range fs {
+			sameAsKind(rep, "first-met=integer:this=float", Level(v), v, &evals)
+		}
+	}()
+	func() { // float kind first ...
+		type Grade float32
+		for _, v := range fs {
+			sameAsKind(rep, "first-met=float:this=float", Grade(float32(v)), float32(v), &evals)
+		}
+	}()
+	func() { // ... then the integer type of the same name
+		type Grade int64
+		for _, v := range is {
+			sameAsKind(rep, "first-met=float:this=integer", Grade(v), v, &evals)
+		}
+	}()
+	func() {
+		type Grade uint64 // a third type of that name
+		for _, v := range us {
+			sameAsKind(rep, "first-met=float:this=integer", Grade(v), v, &evals)
+		}
+	}()
+	return
+}
+
 func TestC10(t *testing.T) {
 	if strconv.IntSize != 64 {
 		fmt.Println("ENGINE-ERROR: property=C10 the check expects a 64-bit platform")
@@ -929,6 +989,7 @@ func TestC10(t *testing.T) {
 	}
 	rep := ev.NewReporter("C10", "exploration")
 	thorough := ev.Thorough()
+	rep.Coverage["homonym_type_evaluations"] = homonyms(rep)
 
 	var tasks []task
 	setSizes := map[string]any{}
@@ -1138,6 +1199,13 @@ func replay(t *testing.T, path string) {
 	}
 	if err := json.Unmarshal(b, &f); err != nil {
 		t.Fatal(err)
+	}
+	if strings.HasPrefix(f.Signature, "homonym-type:") { // the whole (tiny) family is run again: its verdict depends on the order of the conversions
+		rep := ev.NewReporter("C10", "exploration")
+		rep.Coverage["homonym_type_evaluations"] = homonyms(rep)
+		rep.Coverage["exhaustive"] = false
+		rep.Finish()
+		return
 	}
 	rc := f.Replay
 	key, err := strconv.ParseUint(rc.Key, 0, 64)
